@@ -29,6 +29,8 @@ type input struct {
 	IfSeed  bool             // ... and only under the feature sets that accept the seed itself (over-long re-encodings)
 	Ref     []byte           // the module this input must behave like (the seed of an over-long re-encoding)
 	Reject  bool             // invalid by construction: must be rejected under every feature set
+	ExpectF bool             // the exported function "f" must return ExpectV (generator's own expectation) on both engines
+	ExpectV uint32
 	Req     api.CoreFeatures // (only with Valid)
 	AllFS   bool             // compile on the optimizing compiler under every accepting feature set
 	ArgSets int              // 1 = zero arguments only, 3 = zero + two boundary vectors
@@ -44,6 +46,7 @@ type plan struct {
 	walkC   []*walker // lazily filled, see walk()
 	famC    []famMod  // lazily built, see family()
 	deadC   []famMod  // lazily built, see deadCode()
+	dimmC   []famMod  // lazily built, see deadImm()
 	crash   map[string]bool // "seed/field/val" of single deviations that killed the process
 	rawMax  int
 	famStep int
@@ -105,6 +108,13 @@ var quickBytes = func() (m [256]bool) {
 
 func (p *plan) substValue(seedLen int, v byte) bool {
 	return p.tier == "thorough" || seedLen <= 56 || quickBytes[v]
+}
+
+func (p *plan) deadImm() []famMod {
+	if p.dimmC == nil {
+		p.dimmC = buildDeadImm()
+	}
+	return p.dimmC
 }
 
 func (p *plan) deadCode() []famMod {
@@ -196,6 +206,13 @@ func (p *plan) allChunks(phase int) []chunk {
 			cs = append(cs, chunk{Cat: "retype", Seed: si})
 		}
 		cs = append(cs, chunk{Cat: "dropdep", Seed: si})
+	}
+	for lo := 0; lo < len(p.deadImm()); lo += p.famStep {
+		hi := lo + p.famStep
+		if hi > len(p.deadImm()) {
+			hi = len(p.deadImm())
+		}
+		cs = append(cs, chunk{Cat: "deadimm", A: lo, B: hi})
 	}
 	cs = append(cs, chunk{Cat: "nodep"})
 	for lo := 0; lo < len(p.deadCode()); lo += p.famStep {
@@ -344,6 +361,11 @@ func (p *plan) expand(c chunk, yield func(in input)) {
 			m := p.deadCode()[k]
 			yield(input{B: m.B, Tag: "family:" + m.Name, Valid: !m.Reject, Req: m.Req, Reject: m.Reject, ArgSets: 1})
 		}
+	case "deadimm":
+		for k := c.A; k < c.B; k++ {
+			m := p.deadImm()[k]
+			yield(input{B: m.B, Tag: "family:" + m.Name, Valid: true, Req: m.Req, ArgSets: 1, ExpectF: true, ExpectV: 1})
+		}
 	case "nodep":
 		for _, m := range buildNoDep() {
 			yield(input{B: m.B, Tag: "nodep:" + m.Name, ArgSets: 3})
@@ -404,6 +426,8 @@ func (p *plan) expand(c chunk, yield func(in input)) {
 			Hex, Tag string
 			Ref      string
 			Reject   bool
+			ExpectF  bool
+			ExpectV  uint32
 			Valid    bool
 			Req      uint64
 			ArgSets  int
@@ -415,7 +439,7 @@ func (p *plan) expand(c chunk, yield func(in input)) {
 			if as == 0 {
 				as = 3
 			}
-			in := input{B: raw, Tag: e.Tag, ArgSets: as, Valid: e.Valid, Req: api.CoreFeatures(e.Req), Reject: e.Reject}
+			in := input{B: raw, Tag: e.Tag, ArgSets: as, Valid: e.Valid, Req: api.CoreFeatures(e.Req), Reject: e.Reject, ExpectF: e.ExpectF, ExpectV: e.ExpectV}
 			if e.Ref != "" {
 				in.Ref, _ = hex.DecodeString(e.Ref)
 			}
